@@ -266,6 +266,78 @@ let dispatch (req : string list) (impl : string list) : string * string =
     let z = Zenc.zerv { Zenc.f = Array.of_list req; Zenc.i = 1 } in
     if not (schema_validate z.z_schema) then ("INVALID", if impl = [ "INVALID" ] then "OK" else "BAD:schema-validation")
     else ("OK " ^ field_of_str (zerv_ron z), (match impl with "OK" :: _ -> "OK" | "INVALID" :: _ -> "BAD:schema-validation" | _ -> "BAD:ron-roundtrip"))
+  | "TPL" :: _ :: _ ->
+    let c = { Zenc.f = Array.of_list req; Zenc.i = 2 } in
+    let z = Zenc.zerv c in
+    if not (schema_validate z.z_schema) then ("INVALID", if impl = [ "INVALID" ] then "OK" else "BAD:schema-validation")
+    else begin
+      if Zenc.next c <> "T" then failwith "expected T";
+      let k = int_of_string (Zenc.next c) in
+      let vs = z.z_vars in
+      let ctx = match ctx_of_zerv z with Some x -> x | None -> failwith "ctx panic" in
+      let num o = match o with Some n -> print_dec n | None -> [] in
+      let txt o = match o with Some s -> s | None -> [] in
+      let exception Render_error in
+      (* the string a variable contributes (get_string_value / Tera display): null prints as nothing *)
+      let var_text name =
+        match name with
+        | "semver" -> ctx.t_semver | "pep440" -> ctx.t_pep440
+        | "sv_base" -> ctx.t_sv_base | "sv_pre" -> txt ctx.t_sv_pre | "sv_build" -> txt ctx.t_sv_build | "sv_docker" -> ctx.t_sv_docker
+        | "pep_base" -> ctx.t_pep_base | "pep_pre" -> txt ctx.t_pep_pre | "pep_build" -> txt ctx.t_pep_build
+        | "major" -> num vs.v_major | "minor" -> num vs.v_minor | "patch" -> num vs.v_patch | "epoch" -> num vs.v_epoch
+        | "post" -> num vs.v_post | "dev" -> num vs.v_dev | "distance" -> num vs.v_distance
+        | "dirty" -> (match vs.v_dirty with Some true -> s_true | Some false -> s_false | None -> [])
+        | "bumped_branch" -> txt vs.v_bumped_branch | "bumped_commit_hash" -> txt vs.v_bumped_hash
+        | "bumped_commit_hash_short" -> (match vs.v_bumped_hash with Some h -> short_hash h | None -> [])
+        | "bumped_timestamp" -> num vs.v_bumped_ts
+        | "last_commit_hash" -> txt vs.v_last_hash
+        | "last_commit_hash_short" -> (match vs.v_last_hash with Some h -> short_hash h | None -> [])
+        | "last_timestamp" -> num vs.v_last_ts
+        | "pre_label" -> (match pre_label_long z with Some s -> s | None -> raise Render_error)
+        | "pre_label_code" | "pre_label_pep440" -> (match pre_label_code z with Some s -> s | None -> raise Render_error)
+        | "pre_number" -> (match vs.v_pre with Some p -> num p.pr_num | None -> raise Render_error)
+        | o -> failwith ("var " ^ o)
+      in
+      let var_num name =
+        match name with
+        | "bumped_timestamp" -> vs.v_bumped_ts | "last_timestamp" -> vs.v_last_ts | "major" -> vs.v_major | "distance" -> vs.v_distance
+        | "post" -> vs.v_post | "dev" -> vs.v_dev | o -> failwith ("numvar " ^ o)
+      in
+      let src t = if String.sub t 0 2 = "l:" then str_of_field (String.sub t 2 (String.length t - 2)) else var_text (String.sub t 2 (String.length t - 2)) in
+      let onat t = if t = "~" then None else Some (nat_of_int (int_of_string t)) in
+      let obool t = if t = "~" then None else Some (t = "1") in
+      let atom () =
+        match Zenc.next c with
+        | "lit" -> str_of_field (Zenc.next c)
+        | "var" -> var_text (Zenc.next c)
+        | "hash" -> let v = src (Zenc.next c) in let l = onat (Zenc.next c) in fn_hash v (match l with Some n -> n | None -> nat_of_int 7)
+        | "hash_int" ->
+          let v = src (Zenc.next c) in let l = onat (Zenc.next c) in let a = obool (Zenc.next c) in
+          fn_hash_int v (match l with Some n -> n | None -> nat_of_int 7) (match a with Some b -> b | None -> false)
+        | "prefix" -> let v = src (Zenc.next c) in let l = onat (Zenc.next c) in fn_prefix v (match l with Some n -> n | None -> nat_of_int 10)
+        | "prefix_if" -> let v = src (Zenc.next c) in let p = str_of_field (Zenc.next c) in fn_prefix_if v p
+        | "san_preset" ->
+          let v = src (Zenc.next c) in let p = str_of_field (Zenc.next c) in
+          (match fn_sanitize_preset v p with Some s -> s | None -> raise Render_error)
+        | "san_custom" ->
+          let v = src (Zenc.next c) in let sep = opt_str_of_field (Zenc.next c) in let lo = obool (Zenc.next c) in let ke = obool (Zenc.next c) in
+          let mx = onat (Zenc.next c) in
+          fn_sanitize_custom v sep lo ke mx
+        | "fmt_ts" ->
+          let t = Zenc.next c in
+          let n = if String.sub t 0 2 = "n:" then Some (n_of_dec (String.sub t 2 (String.length t - 2))) else var_num (String.sub t 2 (String.length t - 2)) in
+          let f = opt_str_of_field (Zenc.next c) in
+          (match n with None -> raise Render_error | Some n -> (match fn_format_timestamp n f with Some s -> s | None -> raise Render_error))
+        | o -> failwith ("atom " ^ o)
+      in
+      let reply =
+        try
+          let parts = List.init k (fun _ -> atom ()) in
+          "OK " ^ field_of_str (template_finish (List.concat parts))
+        with Render_error -> "ERR"
+      in
+      (reply, (match impl with "PANIC" :: _ -> "BAD:panic" | _ -> "NA"))
+    end
   | "RONV" :: _ ->
     let z = Zenc.zerv { Zenc.f = Array.of_list req; Zenc.i = 1 } in
     if schema_validate z.z_schema then ("OK", if impl = [ "OK" ] then "OK" else "BAD:valid-schema-rejected")
